@@ -77,7 +77,12 @@ def run(ctx):
     fam_e = [dict(c, mode=rnd.choice(['text', 'raw', 'raw'])) for c in gen.samp(rnd, fam_a + fam_n + fam_l, 1500 if q else 20000)]
     # tall formulas (nesting height 100-140, few temporal operators): a specification folded from many requirements
     fam_t = [{'K': rnd.choice(scope3), 'f': ('A', gen.tall_path(rnd, rnd.randint(98, 140))), 'late_edge': False} for _ in range(24 if q else 300)]
-    for fam in (fam_a, fam_b, fam_c, fam_d, fam_e, fam_n, fam_l, fam_s, fam_t):
+    fam_r = []
+    for _ in range(500 if q else 10000):
+        r = rnd.random()
+        K = gen.multi_core_kripke(rnd)[0] if r < 0.35 else gen.core_tail_kripke(rnd)[0] if r < 0.6 else gen.rand_kripke(rnd, rnd.choice([4, 5, 6]), density=rnd.choice([0.2, 0.3]))
+        fam_r.append({'K': K, 'f': ('A', gen.recurrence_formulas(rnd))})
+    for fam in (fam_a, fam_b, fam_c, fam_d, fam_e, fam_n, fam_l, fam_s, fam_t, fam_r):
         for c in fam:
             c['logic'] = 'LTL'
     # Layer-B binding (diagnostic): local consistency of the tableau atoms the real _build_atoms produced
@@ -97,7 +102,7 @@ def run(ctx):
         if drift:
             ctx.log('mechanism drift (diagnostic only): ' + json.dumps(sorted(drift.items())[0][1])[:400])
     events, bad = mcfam.run_families(ctx, [('scope2', fam_a), ('catalogue3', fam_b), ('deep', fam_c), ('liveness3', fam_l), ('shared-polarity', fam_s), ('nary', fam_n), ('random', fam_d),
-                                           ('text', fam_e), ('tall', fam_t)])
+                                           ('text', fam_e), ('tall', fam_t), ('recurrence', fam_r)])
     # large lassos (LargeShapes.tla): structures with more than a thousand states, answers by closed forms
     bigfam.run_big(ctx, bigfam.cases(rnd, ['mc'], 3 if q else 30, logics=('LTL',)))
 
